@@ -242,6 +242,15 @@ Section Reach.
       exists s', (o :: os). simpl. rewrite E1, R. auto.
   Qed.
 
+  Lemma inv_closed_step : inv_closed = true ->
+    forall s i, In s sts -> In i all_in -> exists s' o, m_step M s i = Ret (s', o) /\ In s' sts.
+  Proof.
+    intros Hc s i Hs Hi. apply andb_prop in Hc as [_ Hc]. rewrite forallb_forall in Hc.
+    specialize (Hc s Hs). rewrite forallb_forall in Hc. specialize (Hc i Hi).
+    destruct (m_step M s i) as [[s' o]|]; [|discriminate].
+    exists s', o. split; [reflexivity|]. apply mem_In. exact Hc.
+  Qed.
+
   Lemma init_in : inv_closed = true -> In init sts.
   Proof. intros Hc. apply andb_prop in Hc as [H _]. apply mem_In. exact H. Qed.
 
